@@ -80,6 +80,10 @@ let suite_hops (line : string) : string =
       let b = nn t in
       let res = match M.h_close_bank_probe !w b with M.Ok _ -> "OK" | M.Err e -> err_s e in
       out := (res ^ " # " ^ dump_hworld !w) :: !out
+    end else if op = 37 then begin
+      let r = nn t in let e = nn t in let ab = nn t in let lb = nn t in let n = nz t in
+      let res = match M.h_liquidate_norem !w r e ab lb n with M.Ok w' -> w := w'; "OK" | M.Err e -> err_s e in
+      out := (res ^ " # " ^ dump_hworld !w) :: !out
     end else if op = 32 then begin
       let b = nn t in let _a = ni t in
       let res = match M.h_collect_fees_foreign_ata !w b with M.Ok w' -> w := w'; "OK" | M.Err e -> err_s e in
